@@ -1,5 +1,5 @@
 (* Further corollaries about diff on the serialisations of real trees (no digest-injectivity needed). *)
-From MST Require Import Base TreeM Diff Spec TreeUpsert TreeHash TreeInv TreeCanon HistIndep TreeRanges Intervals DiffWalk DiffTrees TreeRL DiffTop.
+From MST Require Import Base TreeM Diff Spec TreeUpsert TreeHash TreeInv TreeCanon HistIndep TreeRanges Intervals DiffWalk DiffTrees TreeRL DiffTop DiffProv.
 
 Section More.
 Variable digest V : Type.
@@ -64,5 +64,56 @@ Proof.
   destruct (rl_root _ _ _ _ _ HP Hne) as (r0 & rest & El & F & L & _).
   rewrite Fa in F. rewrite Lb in L. injection F as ->. injection L as ->.
   exact (diff_empty_local digest V H deqb _ _ _ _ HP El).
+Qed.
+(* every entry of a tree serialisation has both bounds among the tree's keys *)
+Lemma RL_keys c l : RL c l -> Forall (fun r => In (ps digest r) (keys c) /\ In (pe digest r) (keys c)) l.
+Proof.
+  intros R. destruct c as [|x c'] eqn:Ec; [rewrite (rl_empty _ _ _ _ _ R eq_refl); constructor|]. rewrite <- Ec in *.
+  assert (Hne: c <> []) by (rewrite Ec; discriminate).
+  destruct (first_last_ex V c Hne) as (f & l0 & F & L).
+  pose proof (rl_seg _ _ _ _ _ R) as Sg. eapply Forall_impl; [|exact Sg]. intros r Hr.
+  destruct (seg_facts digest V H c r f l0 (rl_sorted _ _ _ _ _ R) Hr F L) as (_ & _ & _ & A & B). auto.
+Qed.
+
+(* C12 on real trees, full strength: start is a key of the peer, end a key of the peer or of the local
+   tree, and the range lies within the peer's smallest and largest key *)
+Theorem C12_confined opsL opsP tL tP : run opsL = Ok tL -> run opsP = Ok tP ->
+  exists rs, tree_diff tL tP = Ok rs /\ Forall wf rs /\ strict_asc rs /\
+    Forall (fun r => In (ds r) (keys (final_map opsP)) /\
+                     (In (de r) (keys (final_map opsP)) \/ In (de r) (keys (final_map opsL))) /\
+                     exists a b, first_key V (final_map opsP) = Some a /\ last_key V (final_map opsP) = Some b /\
+                                 a <= ds r /\ de r <= b) rs.
+Proof.
+  intros RL_ RP.
+  destruct (tree_diff_wellformed _ _ _ _ RL_ RP) as (rs & E & W & S & _).
+  exists rs. split; [exact E|]. split; [exact W|]. split; [exact S|].
+  destruct (run_RL' _ _ RL_) as (lL & EL & HL). destruct (run_RL' _ _ RP) as (lP & EP & HP).
+  unfold DiffTop.tree_diff in E. rewrite EL, EP in E. cbn [bind] in E.
+  set (cP := final_map opsP) in *. set (cL := final_map opsL) in *.
+  destruct cP as [|x cP'] eqn:EcP.
+  { rewrite (rl_empty _ _ _ _ _ HP eq_refl) in E. cbn in E. injection E as <-. constructor. }
+  rewrite <- EcP in *. assert (Hne: cP <> []) by (rewrite EcP; discriminate).
+  destruct (first_last_ex V cP Hne) as (a & b & Fa & Lb).
+  pose proof (rl_sorted _ _ _ _ _ HP) as SP.
+  assert (Hbound: forall z, In z (keys cP) -> a <= z <= b).
+  { intros z Hz. destruct (key_has_value V cP z Hz) as (v & Hv). exact (between_first_last V cP z v a b SP Hv Fa Lb). }
+  pose (PS := fun z => In z (keys cP)). pose (PL := fun z => In z (keys cL)).
+  pose (PE := fun z => (In z (keys cP) \/ In z (keys cL)) /\ z <= b).
+  assert (H1: forall z, PS z -> PE z). { intros z Hz. split; [left; exact Hz|apply Hbound; exact Hz]. }
+  assert (H2: forall u w, PL u -> PS w -> PE (N.min u w)).
+  { intros u w Hu Hw. destruct (N.min_spec u w) as [(Hlt & ->)|(Hle & ->)].
+    - split; [right; exact Hu|]. pose proof (Hbound w Hw). lia.
+    - apply H1. exact Hw. }
+  assert (OP: Forall (okp digest PS) lP). { eapply Forall_impl; [|exact (RL_keys _ _ HP)]. intros r (A & B). split; assumption. }
+  assert (OL: Forall (okl_ digest PL) lL). { eapply Forall_impl; [|exact (RL_keys _ _ HL)]. intros r (A & _). exact A. }
+  pose proof (diff_se digest deqb PS PL PE H1 H2 lL lP rs OP OL E) as HS.
+  eapply Forall_impl; [|exact HS]. intros r (A & (B & C)). split; [exact A|]. split; [exact B|].
+  exists a, b. split; [exact Fa|]. split; [exact Lb|]. split; [apply Hbound; exact A|exact C].
+Qed.
+Theorem C04_starts opsL opsP tL tP : run opsL = Ok tL -> run opsP = Ok tP ->
+  exists rs, tree_diff tL tP = Ok rs /\ Forall (fun r => In (ds r) (keys (final_map opsP)) /\ ds r <= de r) rs.
+Proof.
+  intros RL_ RP. destruct (C12_confined _ _ _ _ RL_ RP) as (rs & E & W & _ & F). exists rs. split; [exact E|].
+  rewrite Forall_forall in *. intros r Hr. destruct (F r Hr) as (A & _). split; [exact A|exact (W r Hr)].
 Qed.
 End More.
